@@ -96,6 +96,8 @@ def work(item):
 
     divisors = [d for d in range(1, size + 1) if size % d == 0]
     for ctx, (kind, val) in explore(body, timeout_ms=tmo, setup=guard):
+        if res['violations']:
+            break          # one confirmed witness per process count is enough
         if mode == 'max':
             m1, m2 = state['vars']
             e1, e2 = m1, m2
